@@ -15,7 +15,7 @@ structure FieldDesc where
   concat : Bool
   parts : List (Nat × Nat)
   signed : Bool
-  deriving Repr, DecidableEq
+  deriving Repr, DecidableEq, Inhabited
 
 structure TokenDesc where
   name : String
@@ -24,19 +24,19 @@ structure TokenDesc where
   precode : Bool        -- `Info.precode`
   init : Nat            -- `bit_value` of a fresh instance `cls()` (x86_64 RexToken starts at 0x40)
   fields : List FieldDesc
-  deriving Repr, DecidableEq
+  deriving Repr, DecidableEq, Inhabited
 
 /-- the value a pattern writes -/
 inductive PatVal where
   | fixed (v : Int)                                   -- FixedPattern
   | operand (name : String)                           -- VariablePattern on an Operand
   | transformed (name : String) (transform : String)  -- VariablePattern on a Transform wrapping operand `name`
-  deriving Repr, DecidableEq
+  deriving Repr, DecidableEq, Inhabited
 
 structure PatDesc where
   field : String
   val : PatVal
-  deriving Repr, DecidableEq
+  deriving Repr, DecidableEq, Inhabited
 
 inductive OpKind where
   | reg (cls : String) (maxNum : Option Nat)          -- Register subclass, largest `.num` of `all_registers()` if known
@@ -44,14 +44,14 @@ inductive OpKind where
   | str                                               -- a label: filled by a relocation, not by a pattern
   | cons (options : List String) (values : List Int)  -- Constructor choice; `values` = the operand's value map (may be empty)
   | other (desc : String)
-  deriving Repr, DecidableEq
+  deriving Repr, DecidableEq, Inhabited
 
 structure OperandDesc where
   name : String
   kind : OpKind
   read : Bool
   write : Bool
-  deriving Repr, DecidableEq
+  deriving Repr, DecidableEq, Inhabited
 
 /-- an `Instruction` subclass, or a `Constructor` that is used as part of instructions -/
 structure InstrDesc where
@@ -66,7 +66,7 @@ structure InstrDesc where
   encodeOverridden : Bool          -- `encode` is not `Instruction.encode`
   userPatternsOverridden : Bool    -- `set_user_patterns` is not `Constructor.set_user_patterns`
   relocsOverridden : Bool          -- `relocations` / `gen_relocations` overridden
-  deriving Repr, DecidableEq
+  deriving Repr, DecidableEq, Inhabited
 
 structure RelocDesc where
   cls : String                     -- Python class name
@@ -77,7 +77,7 @@ structure RelocDesc where
   size : Option Nat                -- `cls.size()` in bytes when it can be computed
   calcOverridden : Bool
   applyOverridden : Bool
-  deriving Repr, DecidableEq
+  deriving Repr, DecidableEq, Inhabited
 
 /-- purely declarative: bytes are produced by `Instruction.encode` from `tokens` and `patterns` only -/
 def InstrDesc.declarative (c : InstrDesc) : Bool :=
